@@ -30,7 +30,7 @@ def locals_prog(m, d):
 
 
 def loop_prog(k, body):
-    return (f"fn f(a: int) -> int {{ a + 1 }}\nfn g(a: int) -> int {{ if a < 0 {{ throw(\"neg\"); }}; 1 + f(a) }}\nfn main() {{ let s = 0; let l = [1, 2, 3]; let i = 0;\n"
+    return (f"fn f(a: int) -> int {{ a + 1 }}\nfn g(a: int) -> int {{ if a < 0 {{ throw(\"neg\"); }}; 1 + f(a) }}\nfn h(n: int) -> int {{ f(if n >= 0 {{ return n; }} else {{ 0 }}) }}\nfn main() {{ let s = 0; let l = [1, 2, 3]; let i = 0;\n"
             f"  while i < {k} {{ i += 1; {body} }}\n  println(s, i); }}\n")
 
 
@@ -46,6 +46,8 @@ LOOP_BODIES = [
     "try { s = s + 2 * { throw(\"t\"); 1 }; } catch e { s += 2; };",
     "try { let q = [1]; q.pop(); s = s + f(3 - q.pop().unwrap()); } catch e { s += 1; };",
     "try { s += g(i) + g(0 - i); } catch e { s += 3; };",
+    "try { s += f(g(0 - i)); } catch e { s += 4; };",
+    "s += h(i);",
 ]
 
 
@@ -136,6 +138,10 @@ def run(ctx):
             got = "OK" if vm["cls"] == "OK" else vm.get("kind")
             if want and got != want:
                 ctx.violation(dict(rep, vm=vm["raw"][:400]), f"C09 {kind} {info} under {lim}: expected {want}, the VM answered {got}")
+                continue
+            if kind in ("loop", "soak") and tree and tree["cls"] != "OK":
+                ctx.violation(dict(rep, tree=tree["raw"][:400]), f"C09 {kind} {info} under {lim}: a loop of bounded depth is stopped on the interpreter: "
+                              f"{tree['cls']} {tree.get('kind', '')} {tree.get('msg', '')[:80]}")
                 continue
             if vm["cls"] == "OK" and (vm.get("stack"), vm.get("mp"), vm.get("handlers")) != ("0", "0", "0"):
                 ctx.violation(dict(rep, vm=vm["raw"][:400]), f"C09 {kind} {info}: resources not returned: stack={vm.get('stack')} mp={vm.get('mp')} handlers={vm.get('handlers')}")
